@@ -178,7 +178,7 @@ type fnCase struct {
 
 func (c *fnCase) request() string {
 	var parts []string
-	parts = append(parts, strconv.FormatUint(math.Float64bits(c.value), 10), hex.EncodeToString([]byte(c.picture)),
+	parts = append(parts, strconv.FormatUint(math.Float64bits(c.value), 10), "x"+hex.EncodeToString([]byte(c.picture)),
 		strconv.Itoa(c.fmtIdx), bl(c.hasOpts))
 	for _, kv := range c.opts {
 		parts = append(parts, hex.EncodeToString([]byte(kv[0]))+":"+hex.EncodeToString([]byte(kv[1])))
@@ -203,7 +203,7 @@ func workerMain() {
 		fields := strings.Fields(in.Text())
 		bits, _ := strconv.ParseUint(fields[0], 10, 64)
 		value := math.Float64frombits(bits)
-		picture := unhex(fields[1])
+		picture := unhex(fields[1][1:])
 		fi, _ := strconv.Atoi(fields[2])
 		hasOpts := fields[3] == "true"
 		kind, payload := 0, ""
@@ -233,7 +233,7 @@ func workerMain() {
 				kind, payload = 0, s
 			}
 		}()
-		fmt.Fprintf(out, "%d %s\n", kind, hex.EncodeToString([]byte(payload)))
+		fmt.Fprintf(out, "%d x%s\n", kind, hex.EncodeToString([]byte(payload)))
 		out.Flush()
 	}
 }
@@ -288,9 +288,7 @@ func runFnCases(cases []*fnCase) {
 					}
 					f := strings.Fields(line)
 					c.kind, _ = strconv.Atoi(f[0])
-					if len(f) > 1 {
-						c.payload = unhex(f[1])
-					}
+					c.payload = unhex(f[1][1:])
 				case <-time.After(2 * time.Second):
 					c.kind, c.payload = 3, ""
 					w.cmd.Process.Kill()
@@ -326,7 +324,7 @@ func writeShard(kind string, header string, check string, lines []string) {
 		b.WriteString("From Coq Require Import ZArith Bool List Ascii String.\n")
 		b.WriteString("From JV.Base Require Import Bytes Utf8 F64 Res Decimal.\n")
 		b.WriteString("From JV.Model Require Import LibNumber LibFormatNumber LibNumberInst.\n")
-		b.WriteString("From NV Require Import Prelude.\nImport ListNotations.\nOpen Scope Z_scope. Open Scope string_scope.\n")
+		b.WriteString("From NV Require Import Prelude.\nImport ListNotations.\nOpen Scope string_scope. Open Scope Z_scope.\n")
 		b.WriteString(header)
 		b.WriteString("Definition cases := [\n")
 		b.WriteString(strings.Join(lines[i:j], ";\n"))
@@ -343,7 +341,7 @@ const prelude = `From Coq Require Import ZArith Bool List Ascii String.
 From JV.Base Require Import Bytes Utf8 F64 Res Decimal.
 From JV.Model Require Import LibNumber LibFormatNumber LibNumberInst.
 Import ListNotations.
-Open Scope Z_scope. Open Scope string_scope.
+Open Scope string_scope. Open Scope Z_scope.
 
 Definition unhex (h : string) : string :=
   match string_of_hex h with Some s => s | None => "<bad hex>" end.
